@@ -216,7 +216,7 @@ def run(ctx):
   cfg = os.path.join(tlc.WORK, 'c13.cfg')
   os.makedirs(tlc.WORK, exist_ok=True)
   shapes = '{"s1","s2","s3","j1","j2","j3","m1"}'
-  tlc.write_cfg(cfg, constants={'ShapeIds': shapes, 'NPose': 1 if q else 8}, invariants=INVS)
+  tlc.write_cfg(cfg, constants={'ShapeIds': shapes, 'NPose': 1 if q else 8, 'SeedBase': core.seed_base(ctx, 13)}, invariants=INVS)
   dump = os.path.join(tlc.WORK, 'c13')
   res = tlc.run('Fuse', cfg, name='c13', dump=dump, seed=ctx.seed + 7, expect_ok=True, coverage=True)
   tlc.require_coverage(res, ['Snapshot', 'Next'], 'c13')  # Next = \E b : FuseOne(b)
